@@ -300,7 +300,9 @@ class World:
                 f.write_bytes(b'a file that is already there')
             o = cl.download_objects(dest, prefix='snapshots/', skip_existing=op.get('skip_existing', False))
             got = repolab.read_tree(dest) if dest.is_dir() else {}
-            obs['files'] = {self.canon_name(n): ('same' if objs.get(n) == d else 'differs') for n, d in sorted(got.items())}
+            modes = repolab.tree_modes(dest) if dest.is_dir() else {}
+            obs['files'] = {self.canon_name(n): ('same' if objs.get(n) == d else 'differs') + ' ' + modes.get(n, '') for n, d in sorted(got.items())}
+            obs['modes'] = sorted(set(m for n, m in modes.items() if n not in got))       # directory modes (names are random)
             shutil.rmtree(dest, ignore_errors=True)
         elif kind == 'list_objects':
             o = cl.list_objects()
@@ -377,6 +379,7 @@ class World:
             o = cl.restore(dest, snapshot_regex=name)
             tree = repolab.read_tree(dest) if dest.is_dir() else {}
             obs['tree'] = {p: hashlib.sha256(d).hexdigest() for p, d in sorted(tree.items())} if o.ok else None
+            obs['modes'] = repolab.tree_modes(dest) if o.ok and dest.is_dir() else None
             shutil.rmtree(dest, ignore_errors=True)
         elif kind == 'delete':
             names = [next((n for n, l in self.labels.items() if l == lab), 'e' * 16) for lab in op['labels']]
@@ -436,6 +439,7 @@ def worker_main():
     base = make_base(rng, wd)
     out = {}
     for variant in ['none'] + inp['variants']:
+        os.umask(0o022)         # every variant starts from the same process state
         w = World(base, variant, wd / f'v-{variant}', random.Random(inp['seed'] * 7919 + len(variant) * 131 + sum(map(ord, variant))), clock)
         steps = []
         for i, op in enumerate(inp['history']):
@@ -630,6 +634,7 @@ def crowd_main(inp):
     out = {'n': n, 'crowded': crowded}
     for variant in ('none', 'cold'):
         b = MemBackend(dict(base))
+        out.setdefault('umask', {})[variant] = oct(os.umask(0o022))      # every variant starts from the same process state
         cache = wd / f'cache-{variant}'
         steps = []
         for i, (cmd, arg) in enumerate(commands):
@@ -650,6 +655,7 @@ def crowd_main(inp):
                     o = cl.restore(dest, snapshot_regex=arg)
                     tr = repolab.read_tree(dest) if dest.is_dir() else {}
                     obs['tree'] = {p_: hashlib.sha256(d).hexdigest() for p_, d in sorted(tr.items())} if o.ok else None
+                    obs['modes'] = repolab.tree_modes(dest) if o.ok and dest.is_dir() else None
                     shutil.rmtree(dest, ignore_errors=True)
                 elif cmd == 'delete':
                     o = cl.delete_snapshots([arg])
@@ -732,6 +738,9 @@ def run_crowds(ctx, rep, specs):
                     break
         for i, (a, b) in enumerate(zip(r['none'], r['cold'])):
             key = diff_obs(a, b)
+            if key == 'modes' and isinstance(a.get(key), dict) and isinstance(b.get(key), dict):
+                ks = [k_ for k_ in sorted(set(a[key]) | set(b[key])) if a[key].get(k_) != b[key].get(k_)][:3]
+                a, b = dict(a, modes={k_[-24:]: a[key].get(k_) for k_ in ks}), dict(b, modes={k_[-24:]: b[key].get(k_) for k_ in ks})
             if key:
                 rep.violations.append({
                     'what': f'{kind} repository with {r["n"]} snapshots, {len(r["crowded"])} cache sub-directories holding two or more ({r["crowded"][:2]}): '
@@ -898,6 +907,8 @@ def _label_of_term(t):
 def diff_obs(a, b):
     if a.get('files') != b.get('files'):
         return 'files'
+    if a.get('modes') != b.get('modes'):
+        return 'modes'
     if (a.get('either_error') or b.get('either_error')) and a.get('cls') != 'Ok' and b.get('cls') != 'Ok':
         a, b = dict(a, cls='error'), dict(b, cls='error')
     for key in ('cls', 'rows', 'tree', 'backend'):
@@ -919,9 +930,9 @@ def check_history(rep: Report, hid, history, result, variants, with_model=True):
                 if key:
                     op = history[i]
                     got_, ref_ = sb['obs'].get(key), sa['obs'].get(key)
-                    if key == 'files' and isinstance(got_, dict) and isinstance(ref_, dict):
+                    if key in ('files', 'modes') and isinstance(got_, dict) and isinstance(ref_, dict):
                         keys_ = [k_ for k_ in sorted(set(got_) | set(ref_)) if got_.get(k_) != ref_.get(k_)][:3]
-                        got_, ref_ = {k_[:24]: got_.get(k_, 'not written') for k_ in keys_}, {k_[:24]: ref_.get(k_, 'not written') for k_ in keys_}
+                        got_, ref_ = {k_[-24:]: got_.get(k_, 'not written') for k_ in keys_}, {k_[-24:]: ref_.get(k_, 'not written') for k_ in keys_}
                     rep.violations.append({
                         'what': f'with cache variant "{v}" step {i} ({op["op"]}{" --skip-existing" if op.get("skip_existing") else ""} by {USERS[op["client"]]}) '
                                 f'differs from the cache-less run in {key}: {json.dumps(got_)[:150]} vs {json.dumps(ref_)[:150]}',
